@@ -17,7 +17,7 @@ import itertools
 
 import numpy as np
 
-REQUIRED = ['reach_iff', 'desc_iff', 'anc_iff', 'check_iff_admissible', 'check_order_independent', 'listed_iff',
+REQUIRED = ['reach_iff', 'desc_iff', 'anc_iff', 'check_iff_admissible', 'check_iff_backdoor', 'check_order_independent', 'listed_iff',
             'listed_iff_set', 'minimal_eq_smallest', 'reject_unchanged', 'arrow_reject_iff', 'arrows_reject_iff',
             'acyclic_inv', 'acyclic_from_init', 'inv_run', 'inv_from_init', 'listed_iff_program']
 RULE = ('graphs: every DAG containing exposure->outcome on 2..5 labelled nodes (1+8+168+8816, both tiers; the thorough '
